@@ -85,6 +85,13 @@ TEXT = {
             "swizzle / flatten / split chains (tuple coordinates, tuple shapes); content, shape, rank ids, names checked "
             "after every conversion; rank-0 enumerated; fromRandom reproducibility, bounds and density-1 fill.",
             "YAML / dict forms carry no default (documented Todo): defaults are re-applied before comparing."),
+    "C14": ("Hypothesis PBT: expected-attribute table written from the docstrings, coordinate-in-shape and "
+            "iterActive==iterOccupancy invariants",
+            "Generated tensors (authoritative / estimated shapes, non-zero defaults, per-rank formats, mutability, every "
+            "constructor) x 16 constructors / transforms: rank ids, re-arranged authoritative shape, default, formats, "
+            "mutability compared with the table; every stored coordinate inside the reported shape and active range; a "
+            "second part checks rank id and active range of 15 kinds of lazy fibers and the adoption of unowned fibers.",
+            "Relative merges only on relative-coordinate splits (what the style is defined for); halo-free splits."),
     "C15": ("Hypothesis PBT over kernels x metrics configurations x session pre-histories: independent operation counters, "
             "on/off and fresh/after-history differential",
             "Generated kernels run with collection off, in a fresh session, and again after 0-3 earlier sessions (other "
